@@ -95,7 +95,7 @@ def snap_position(pos):
 
 def snapshot(b, hist_prev):
     """State of the real broker. `hist_prev`: pid -> history length at the previous snapshot."""
-    s = dict(clock=secs(b.current_dt), master=_num(b.cash_balances[b.base_currency]), pfs=[])
+    s = dict(clock=secs(b.current_dt), master=_num(b.cash_balances.get(b.base_currency, float('nan'))), pfs=[])
     for pid, p in b.portfolios.items():
         d = dict(id=pid, clock=secs(p.current_dt), cash=_num(p.cash),
                  positions=[snap_position(pos) for pos in p.pos_handler.positions.values()],
@@ -185,9 +185,9 @@ def make_fee(fee):
 def execute(case):
     """Run a case on the real code; returns the trace."""
     dh = ScriptedHandler(case.get('np_quotes', True))
-    trace = dict(case=case, steps=[])
+    trace = dict(case=case, steps=[], supported=[str(c) for c in settings.SUPPORTED['CURRENCIES']])
     try:
-        b = SimulatedBroker(ts(case['start']), SimulatedExchange(ts(case['start'])), dh,
+        b = SimulatedBroker(ts(case['start']), SimulatedExchange(ts(case['start'])), dh, base_currency=case.get('cur', 'USD'),
                             initial_funds=case['funds'], fee_model=make_fee(case['fee']))
     except Exception as e:
         trace['new_out'] = type(e).__name__
@@ -225,10 +225,11 @@ def execute(case):
                 next_id[0] += 1
                 if len(op) > 4 and op[4] is not None and op[4] < order_id:
                     order_id = op[4]              # an identifier the caller has used before (documented `order_id=` option)
+                kw = dict(commission=op[5]) if len(op) > 5 and op[5] is not None else {}
                 if case.get('auto_ids'):
-                    b.submit_order(op[1], Order(b.current_dt, op[2], op[3]))      # the broker's own (random) order identifiers
+                    b.submit_order(op[1], Order(b.current_dt, op[2], op[3], **kw))      # the broker's own (random) order identifiers
                 else:
-                    b.submit_order(op[1], Order(b.current_dt, op[2], op[3], order_id=order_id))
+                    b.submit_order(op[1], Order(b.current_dt, op[2], op[3], order_id=order_id, **kw))
             elif kind == 'px':
                 dh.set(op[1], op[2], op[3])
             elif kind == 'unpx':
